@@ -54,7 +54,7 @@ def run(res, tier, br, model_ok=True, search=False):
         kinds[kk] = kinds.get(kk, 0) + 1
         if o == "fatal" or k != "base":
             res.nontriv(("p", s))
-        if o not in ("ok", "fatal"):
+        if o not in ("ok", "fatal", "skipped"):
             res.report(o, f"{n} ({k}): the run ends with {o} instead of a verdict or a fatal diagnostic",
                        {"kind": "pipeline", "name": n, "src": s, "observed": o})
     res.streams["pipeline"]["edit_kinds"] = kinds
